@@ -825,6 +825,12 @@ def _scalar_value_tomof(
                 "for conversion to a MOF string",
                 type, builtin_type(value))
     val = str(value)
+    if isinstance(value, CIMFloat):
+        # The realValue format of MOF requires a fractional part, but str()
+        # omits it in some cases when using the exponent form (e.g. '1e+16')
+        mantissa, exp_sep, exponent = val.partition('e')
+        if exp_sep and '.' not in mantissa:
+            val = mantissa + '.0e' + exponent
     return mofval(val, indent, maxline, line_pos, end_space)
 
 
